@@ -201,6 +201,8 @@ struct Value {
     }
 
     Value &operator=(ValueType type) noexcept {
+        // What the value holds is released first; the payload of the old kind is not one of the new kind.
+        reset();
         setType(type);
         return *this;
     }
